@@ -54,6 +54,7 @@ class HLLSys(E1):
                 yield ("updd", s, ((K[i], 5), (K[(i + 2) % n], 1)))
             for x, g in c.get("ngrams", ()):
                 yield ("ngram", s, bytes(x), g)
+            yield ("updit", s, (K[0], K[n - 1]))
         for s in range(S):
             for t in range(S):
                 yield ("merge", s, t)
@@ -72,6 +73,14 @@ class HLLSys(E1):
         elif op == "updl":
             work[ev[1]].update([bytes(k) for k in ev[2]])
             m[ev[1]].update(bytes(k) for k in ev[2])
+        elif op == "updit":
+            # a one-shot iterable: it may be refused (TypeError), but if update() accepts it
+            # the keys count
+            try:
+                work[ev[1]].update(iter([bytes(k) for k in ev[2]]))
+                m[ev[1]].update(bytes(k) for k in ev[2])
+            except TypeError:
+                pass
         elif op == "updd":
             work[ev[1]].update({bytes(k): v for k, v in ev[2]})
             m[ev[1]].update(bytes(k) for k, _ in ev[2])
